@@ -194,6 +194,7 @@ func (fr *Frame) callVals1(c *ssa.CallCommon, fv *Val, args []*Val, argVals []ss
 	inModule := vc.eng.inModule(callee)
 	isLocalClosure := callee.Parent() != nil
 	if fc != nil && !fc.Inline && !(callee == fr.vc.fn) && (len(fc.Ensures) > 0 || len(fc.Requires) > 0 || fc.HasModifies) {
+		fr.curFv = fv
 		return fr.contractCall(fc, callee, args, rt, pos, relFuncName(callee))
 	}
 	if inModule && len(callee.Blocks) > 0 && fr.depth < maxInlineDepth && !fr.onStack(callee) && ((fc != nil && fc.Inline) || isLocalClosure || vc.eng.autoInline(callee)) {
@@ -513,6 +514,11 @@ func (fr *Frame) builtin(b *ssa.Builtin, c *ssa.CallCommon, args []*Val, argVals
 		}
 		return nil
 	case "recover":
+		if fc := vc.eng.contractOf(fr.fn); fc != nil && fc.Recovers {
+			v := fr.freshVal("recovered", rt)
+			vc.assume(fr.reach, not(eq(sx("itag", v.T), "0")))
+			return v
+		}
 		return fr.mkVal("(mkI 0 0)", rt)
 	case "print", "println":
 		return nil
